@@ -1,0 +1,8 @@
+//go:build !verif
+
+// Package verifhook provides named hook points used by external verification
+// tooling.  Without the "verif" build tag every hook is an empty function.
+package verifhook
+
+// At marks a hook point.  It does nothing unless built with -tags verif.
+func At(point string, kv ...int) {}
